@@ -575,6 +575,118 @@ class FG:
             self.emit('mov', self.X_(), Mem(t2, d2, p.reg))
         self.p.features.add('mem:overlap-mixed-width')
 
+    def g_mem2(self):
+        """ONE non-move insn (arithmetic, comparison, compare-and-branch) that reads one address through TWO memory
+        operands - the same element type or another one of the same size / another size (i8/u8, i16/u16, i32/u32,
+        i32/i64 ...) - after a store whose readings differ (bit 7 / 15 / 31 set): link-time simplification loads
+        every memory operand into a temporary of its own unless type AND address agree; optionally the result goes
+        to the same address too (in/out), or the second operand sits at a neighbouring displacement"""
+        r = self.rng
+        pairs = [('i8', 'u8'), ('i16', 'u16'), ('i32', 'u32'), ('i32', 'i64'), ('u32', 'u64'), ('i8', 'i16'), ('u8', 'i32'),
+                 ('i16', 'u32'), ('u16', 'i64'), ('i8', 'i8'), ('u16', 'u16'), ('i32', 'i32')]
+        ta, tb = r.choice(pairs) if r.random() < 0.85 else (r.choice(INT_TYPES), r.choice(INT_TYPES))
+        if r.random() < 0.5: ta, tb = tb, ta
+        big = ta if TSIZE[ta] >= TSIZE[tb] else tb
+        m = self.mem_operand(big, write=True)
+        writable = m is not None
+        if m is None: m = self.mem_operand(big)
+        if m is None or not self.X: return self.g_alu64()
+        def at(ty, dd=0): return Mem(ty, m.disp + dd, m.base, m.index, m.scale, m.alias if r.random() < 0.8 else None)
+        if writable and r.random() < 0.75:
+            k = r.random()
+            v = Imm(r.choice([0x80, 0xff, 0x8000, 0xffff, 0x80000000, 0xffffffff, -1, 0x12348765, 0xf0, 0x7f80, -0x80,
+                              0x80008080, 0xfffffffe, 0x180, 0x18000])) if k < 0.5 else \
+                Imm(r.getrandbits(64) - (1 << 63)) if k < 0.65 else self.X_()
+            self.emit('mov', at('i64' if TSIZE[big] == 8 else r.choice(['i', 'u']) + str(8 * TSIZE[big])), v)
+        ma, mb = at(ta), at(tb)
+        if r.random() < 0.12 and m.index is None and TSIZE[tb] <= TSIZE[ta] // 2:
+            mb = at(tb, TSIZE[tb])                       # neighbour: another address, a temporary of its own
+            self.p.features.add('mem2:neighbour-disp')
+        same = 'same' if ta == tb else 'sign' if TSIZE[ta] == TSIZE[tb] else 'size'
+        k = r.random()
+        if k < 0.3:
+            # compare-and-branch; both ways set a flag register
+            if r.random() < 0.6: op = r.choice(['beq', 'bne', 'blt', 'ble', 'bgt', 'bge', 'ublt', 'uble', 'ubgt', 'ubge'])
+            else: op = r.choice(['beqs', 'bnes', 'blts', 'bles', 'bgts', 'bges', 'ublts', 'ubles', 'ubgts', 'ubges'])
+            lt, lj = self.label(), self.label()
+            self.emit(op, lt, ma, mb)
+            res = self.X_()
+            self.emit('mov', res, Imm(r.randrange(0, 100)))
+            self.emit('jmp', lj)
+            self.place(lt)
+            self.emit('mov', res, Imm(r.randrange(100, 200)))
+            self.place(lj)
+            kind = 'branch'
+        else:
+            wide = r.random() < 0.6
+            if k < 0.75:
+                op = r.choice(['add', 'sub', 'sub', 'mul', 'and', 'or', 'xor'])
+                kind = 'arith'
+            else:
+                op = r.choice(['eq', 'ne', 'lt', 'le', 'gt', 'ge', 'ult', 'ule', 'ugt', 'uge'])
+                kind = 'cmp'
+            if not wide: op += 's'
+            res = self.X_() if wide else self.W_() if self.W else self.X_()
+            dst = res
+            if writable and r.random() < 0.15 and (wide or TSIZE[ta] <= 4):
+                dst = at(ta if wide or TSIZE[tb] > 4 else r.choice([ta, tb]))             # in/out: the result goes to the address read
+                self.p.features.add('mem2:inout')
+            self.emit(op, dst, ma, mb)
+            if dst is not res:
+                res = self.X_()
+                self.emit('mov', res, Mem(dst.ty, dst.disp, dst.base, dst.index, dst.scale))
+            elif not wide:
+                x = self.X_()
+                self.emit(r.choice(['ext32', 'uext32']), x, res)   # upper half of a 32-bit result is not defined
+                res = x
+        if r.random() < self.opts.get('p_mem2_observe', 0.5):
+            self.emit('call', Ref('p_exv'), Ref('exv'), res, res)
+        self.p.features.add('mem2:%s:%s' % (kind, same))
+
+    def g_mask_ext(self):
+        """small peephole chains: and/or/xor/shift with a constant feeding a sign / zero extension.  Masks sit on
+        the boundaries of the extension width w - 2^(w-1)-1, 2^(w-1), 2^w-1, 2^w and neighbours - where 'the
+        extension is a no-op after this mask' changes its answer; the input has bit w-1 set half of the time at least"""
+        r = self.rng
+        if not self.X: return
+        w = r.choice([8, 16, 32])
+        ext = ('ext' if r.random() < 0.65 else 'uext') + str(w)
+        a = self.X_()
+        if self.O and r.random() < 0.4: a = R(r.choice(self.O))
+        if r.random() < 0.35:
+            a2 = R(self.new_local('me'))
+            self.emit('or', a2, a, Imm(r.choice([1 << (w - 1), (1 << w) - 1, 3 << (w - 1), -(1 << (w - 1))])))
+            a = a2
+        t = R(self.new_local('me'))
+        k = r.random()
+        if k < 0.7:
+            op = r.choice(['and', 'and', 'and', 'ands', 'or', 'xor']) if w < 32 else r.choice(['and', 'and', 'and', 'or', 'xor'])
+            c = r.choice([(1 << (w - 1)) - 1, 1 << (w - 1), (1 << w) - 1, 1 << w, (1 << (w - 1)) + 1, (1 << w) - 2,
+                          (1 << (w + 1)) - 1, (1 << (w - 1)) - 2, 3 << (w - 2), -1, -(1 << (w - 1)), -(1 << w),
+                          r.getrandbits(w + 1), r.getrandbits(w - 1), (1 << w) | r.getrandbits(w)])
+            if op == 'ands' and not -(1 << 31) <= c < (1 << 32): c &= 0xffffffff
+            cop = Imm(c)
+            if r.random() < 0.35:
+                cop = R(self.new_local('me'))
+                self.emit('mov', cop, Imm(c))
+            if r.random() < 0.25: self.emit(op, t, cop, a)
+            else: self.emit(op, t, a, cop)
+            feat = '%s+%s:%s' % (op, ext, 'below' if 0 <= c < (1 << (w - 1)) else 'sign-bit' if 0 <= c < (1 << w) else 'wider')
+        else:
+            op = r.choice(['lsh', 'ursh', 'rsh', 'lshs', 'urshs', 'rshs'])
+            lim = 32 if op in ('lshs', 'urshs', 'rshs') else 64
+            cnt = r.choice([0, 1, w - 1, w, lim - w, lim - w - 1, lim - 1, r.randrange(0, lim)])
+            cnt = max(0, min(lim - 1, cnt))
+            self.emit(op, t, a, Imm(cnt))
+            feat = '%s+%s' % (op, ext)
+        res = self.X_()
+        self.emit(ext, res, t)
+        if r.random() < 0.3 and not op.endswith('s'):
+            self.emit(r.choice(['add', 'xor', 'sub']), self.X_(), t, res)    # the masked value has another use
+        if r.random() < self.opts.get('p_mask_ext_observe', 0.4):
+            self.emit('call', Ref('p_exv'), Ref('exv'), res, res)
+        self.p.features.add('peep:' + feat)
+
     def g_cmp(self):
         r = self.rng
         if r.random() < 0.5:
@@ -1314,6 +1426,7 @@ class FG:
         r = self.rng
         kinds = [(self.g_alu64, 14), (self.g_alu32, 12), (self.g_neg, 2), (self.g_ext, 6), (self.g_cmp, 7),
                  (self.g_ext_chain, 3), (self.g_reload, 3), (self.g_overlap, 5),
+                 (self.g_mem2, self.opts.get('w_mem2', 4)), (self.g_mask_ext, self.opts.get('w_mask_ext', 4)),
                  (self.g_shift, 7), (self.g_div, 7), (self.g_imm_arith, self.opts.get('w_imm_arith', 8)), (self.g_load, 8), (self.g_store, 9), (self.g_mov, 5),
                  (self.g_ovf, self.opts.get('w_ovf', 4)), (self.g_join_const, self.opts.get('w_join_const', 3)), (self.g_pressure, self.opts.get('w_pressure', 3)), (self.g_local_alloca, 2), (self.g_counted_loop, 3), (self.g_call_ext, 3),
                  (self.g_call_mir, self.opts.get('w_call', 4)), (self.g_self_call, 1)]
